@@ -254,7 +254,7 @@ CHECKS = {
         protos=[dict(name='crash', mode='cert', quick_seeds=1, thorough_seeds=1)],
         rule="each op line is one crash/restart run of a real single-replica KVNode child process (raft, WAL with 4 kB segments, SnapCount 15, "
              "KeepBackup 2, KeepWAL 2, pebble; thorough also mem): quick = every reachable crash point x 2 placements (early; mid-history as a "
-             "30 ms slow step) + 4 SIGKILL instants, about 100 runs; thorough = 20 rounds with random k, history length, client window, engine; "
+             "30 ms slow step) + 4 SIGKILL instants + 6 three-replica runs + 6 runs with TWO writing lives (phase=3: SIGKILL in the first, the crash under test after further acknowledged writes in the second, dump of the third), about 120 runs; thorough = 20 rounds with random k, history length, client window, engine; "
              "notes list crash-at:<point> / crash-point-not-reached:<point> / crash_points_missing:<point>",
         trusted=["tools/instrument: one statement verifCrash(\"name\") inserted before/after the anchor call found by name in copies of the CURRENT "
                  "node/raft.go, node/node.go, node/raft_storage.go, rockredis/rockredis.go, wal/wal.go, pkg/fileutil/purge.go (a missing anchor is listed, not hidden)",
